@@ -136,12 +136,22 @@ public:
 	}
 };
 
+// between the delayed queue and the interpreter: counts the deliveries (InterpreterImpl::eventReady has returned,
+// the event is in the external queue)
+struct DeliverShim : public DelayedEventQueueCallbacks {
+	DelayedEventQueueCallbacks* target;
+	std::atomic<long> delivered;
+	DeliverShim(DelayedEventQueueCallbacks* t) : target(t), delivered(0) {}
+	void eventReady(Event& e, const std::string& id) { target->eventReady(e, id); delivered++; }
+};
+
 // the delayed queue, unchanged, with a read-only view of the timer map and `fire all pending now`
 class PeekDelayQueue : public BasicDelayedEventQueue {
 public:
-	PeekDelayQueue(DelayedEventQueueCallbacks* cb) : BasicDelayedEventQueue(cb) {}
+	DeliverShim* shim;
+	PeekDelayQueue(DeliverShim* cb) : BasicDelayedEventQueue(cb), shim(cb) {}
 	std::shared_ptr<DelayedEventQueueImpl> create(DelayedEventQueueCallbacks* cb) {
-		return std::shared_ptr<DelayedEventQueueImpl>(new PeekDelayQueue(cb));
+		return std::shared_ptr<DelayedEventQueueImpl>(new PeekDelayQueue(new DeliverShim(cb)));
 	}
 	struct Pending { std::string uuid, name; timeval due; struct event* ev; };
 	std::vector<Pending> pending() {
@@ -167,10 +177,6 @@ public:
 		}
 		return s.size() ? s : "-";
 	}
-	bool has(const std::string& uuid) {
-		std::lock_guard<std::recursive_mutex> lock(_mutex);
-		return _callbackData.find(uuid) != _callbackData.end();
-	}
 	// BasicDelayedEventQueue::serialize() and stop() lose their wake-up when the timer thread has not yet entered
 	// event_base_loop() (C10: event_base_loopbreak() is forgotten at loop entry, join() then blocks for a year).
 	// The race is C10's subject; here it is kept out of the way: wait until the loop has demonstrably run once.
@@ -184,16 +190,18 @@ public:
 		event_free(ev);
 		std::this_thread::sleep_for(std::chrono::microseconds(150));   // back into event_base_loop()
 	}
-	// make every pending timer due now, one after the other in due order; false on timeout
+	// make every pending timer due now, one after the other in due order, each time waiting until the event has
+	// been delivered to the interpreter; false on timeout
 	bool fireAll() {
 		for (auto& p : pending()) {
+			long before = shim->delivered.load();
 			{
 				std::lock_guard<std::recursive_mutex> lock(_mutex);
 				if (_callbackData.find(p.uuid) == _callbackData.end()) continue;
 				event_active(p.ev, EV_TIMEOUT, 0);
 			}
 			auto dl = std::chrono::steady_clock::now() + std::chrono::milliseconds(3000);
-			while (has(p.uuid)) {
+			while (shim->delivered.load() == before) {
 				if (std::chrono::steady_clock::now() > dl) return false;
 				std::this_thread::sleep_for(std::chrono::microseconds(200));
 			}
@@ -215,7 +223,7 @@ struct Machine {
 		al.microStepper = MicroStep(Factory::getInstance()->createMicroStepper(engine, (MicroStepCallbacks*)in->getImpl().get()));
 		eq = new PeekQueue();
 		al.externalQueue = EventQueue(std::shared_ptr<EventQueueImpl>(eq));
-		dq = new PeekDelayQueue((DelayedEventQueueCallbacks*)in->getImpl().get());
+		dq = new PeekDelayQueue(new DeliverShim((DelayedEventQueueCallbacks*)in->getImpl().get()));
 		al.delayQueue = DelayedEventQueue(std::shared_ptr<DelayedEventQueueImpl>(dq));
 		in->setActionLanguage(al);
 		mon = new SzMonitor(&rec);
